@@ -43,3 +43,125 @@ Theorem C01_no_chain :
     (forall a, ~ P U C n ds [inv] a) -> forall a, fst (access U C n ds inv) <> AOk a.
 Proof. exact access_no_chain. Qed.
 Print Assumptions C01_no_chain.
+
+(* ------------------------------------------------------------------ *)
+(* From token BYTES (TokenView.v).  The theorems above speak about abstract tokens; the ones below
+   state that the token the validator reasons about is a function of the stored block — the
+   decoding of its bytes, read exactly as ucan.View reads them — and that `signed by its stated
+   issuer` means: the signature bytes verify, symbolically, over the byte-exact DAG-JSON signing
+   input of Signing.v / DagJson.v.  Check_TokenView.v compares view_block with the Go accessors on
+   the root block of every token of every generated world. *)
+From Ucanto Require Import Ipld Cbor Formats Sig Did DagJson Signing TokenBytes TokenView.
+
+(* the typed decoding of a root block (TokenBytes.token_decode_typed: dag-cbor driving bindnode's
+   assemblers for the UCAN schema — unknown keys, missing required fields, null outside `exp`,
+   repeated keys inside `nb` refused; repeated fields last-wins, `att` concatenated; Go ints) reads
+   back every token the library can issue (Go ints, a present nb), where it agrees with the
+   generic reader of Formats.v up to norm_token: an optional list that is present but empty
+   (`prf: []`, which the library writes for a token without proofs) is absent in the Go model *)
+Theorem C01_bytes_typed_transport :
+  forall t : utoken,
+    wf_ipld (token_ipld t) = true -> in_budget (token_ipld t) = true -> token_typed_ok t = true ->
+    token_decode_typed (token_bytes t) = Some (norm_token (canon_token t))
+    /\ token_decode_typed (token_bytes t) = option_map norm_token (token_decode (token_bytes t)).
+Proof. exact token_typed_transport_both. Qed.
+Print Assumptions C01_bytes_typed_transport.
+
+(* the validator's token of an encoded block is the view of the token that was encoded, in the
+   canonical form the decoder returns (caveat maps sorted) ... *)
+Theorem C01_bytes_view_decode :
+  forall (num : bstr -> link) (keys : list N) (valid : N -> bstr -> bstr -> bool) (alg_of : N -> bstr) (t : utoken),
+    wf_ipld (token_ipld t) = true -> in_budget (token_ipld t) = true ->
+    option_map (view_token num keys valid alg_of) (token_decode (token_bytes t))
+      = Some (view_token num keys valid alg_of (canon_token t))
+    /\ (token_typed_ok t = true -> u_fct t <> Some [] ->
+        view_block num keys valid alg_of (token_bytes t) = view_token num keys valid alg_of (canon_token t)).
+Proof. exact view_decode_both. Qed.
+Print Assumptions C01_bytes_view_decode.
+
+(* ... which differs from the token only in the order of caveat-map entries: every other field of
+   the view is that of the token itself, and nothing differs for canonical caveats *)
+Theorem C01_bytes_view_canon :
+  forall num keys valid alg_of (t : utoken),
+    let v := view_token num keys valid alg_of in
+    v (canon_token t) =
+      mkTok (t_iss (v t)) (t_aud (v t)) (map (view_cap num) (map canon_cap (u_att t)))
+            (t_prf (v t)) (t_exp (v t)) (t_nbf (v t)) (t_sigcode (v t)) (t_signer (v t))
+    /\ (map canon_cap (u_att t) = u_att t -> v (canon_token t) = v t).
+Proof. exact view_canon_both. Qed.
+Print Assumptions C01_bytes_view_canon.
+
+(* the bytes determine the validator's token *)
+Theorem C01_bytes_determine_view :
+  forall num keys valid alg_of (a b : utoken),
+    wf_ipld (token_ipld a) = true -> wf_ipld (token_ipld b) = true ->
+    token_bytes a = token_bytes b ->
+    view_token num keys valid alg_of (canon_token a) = view_token num keys valid alg_of (canon_token b).
+Proof. exact view_bytes_determine. Qed.
+Print Assumptions C01_bytes_determine_view.
+
+(* t_signer = Some k means: k is a key of the world, the payload is signable, and the signature
+   bytes validate under k over sign_payload — the exact string base64url(dag-json(header)) "."
+   base64url(dag-json(payload)) rebuilt from the token's fields; hence ucan.VerifySignature
+   (Signing.verify) holds for every verifier that holds k and reports the token's stated issuer *)
+Theorem C01_bytes_signer_sound :
+  forall num keys valid alg_of (t : utoken) (k : N),
+    t_signer (view_token num keys valid alg_of t) = Some k ->
+    In k keys /\
+    signable (alg_of k) t = true /\ sign_payload_ok t = true /\
+    valid k (sign_payload (alg_of k) t) (u_s t) = true /\
+    forall did_of, did_of k = u_iss t -> verify valid alg_of did_of t k = true.
+Proof. exact view_signer_sound_full. Qed.
+Print Assumptions C01_bytes_signer_sound.
+
+(* t_signer = None means: no key of the world verifies the token, under any DID *)
+Theorem C01_bytes_signer_none :
+  forall num keys valid alg_of (t : utoken),
+    t_signer (view_token num keys valid alg_of t) = None ->
+    forall k, In k keys -> forall did_of, verify valid alg_of did_of t k = false.
+Proof. exact view_signer_none. Qed.
+Print Assumptions C01_bytes_signer_none.
+
+(* C07_tamper lifted to the validator's view: two tokens with the same signature bytes that both
+   have signer k are one token for the validator (same issuer, audience, capabilities up to the
+   order of caveat entries, proofs, window, signature code): a block altered after signing has no
+   signer.  Hypothesis: a signature validates at most one message under a key. *)
+Theorem C01_bytes_tamper :
+  forall num keys (valid : N -> bstr -> bstr -> bool) (alg_of : N -> bstr),
+    (forall k m m' s, valid k m s = true -> valid k m' s = true -> m = m') ->
+  forall (t t' : utoken) (k : N),
+    wf_ipld (header_ipld (alg_of k) (u_v t)) = true -> wf_ipld (header_ipld (alg_of k) (u_v t')) = true ->
+    wf_ipld (payload_ipld t true) = true -> wf_ipld (payload_ipld t' true) = true ->
+    token_bytes_ok t = true -> token_bytes_ok t' = true ->
+    u_s t' = u_s t ->
+    t_signer (view_token num keys valid alg_of t) = Some k ->
+    t_signer (view_token num keys valid alg_of t') = Some k ->
+    view_token num keys valid alg_of (canon_token t') = view_token num keys valid alg_of (canon_token t).
+Proof. exact view_tamper. Qed.
+Print Assumptions C01_bytes_tamper.
+
+(* C01_sound from block bytes.  B maps a link to the bytes of its block; the token store is
+   store_of B = the view of every block that is present.  If Access authorizes, the authorization
+   satisfies the specification P of C01_sound in which every signature clause `sig_ok t v` reads
+   (sig_ok_bytes): the delegation's block decodes (token_decode_typed) to a token ut whose view is t,
+   whose issuer bytes decode to the verifier's DID, whose signature code is the verifier's, and
+   whose signature bytes validate under the verifier's key over sign_payload ut — so that
+   Signing.verify holds for a verifier of that key reporting the stated issuer.  Every token on
+   the proof path is thus verified against its stated issuer on the signed bytes, or is backed by
+   the authority's session attestation (whose own chain satisfies the same specification). *)
+Theorem C01_sound_bytes :
+  forall (B : link -> option bstr) (num : bstr -> link) (keys : list N)
+         (valid : N -> bstr -> bstr -> bool) (alg_of : N -> bstr) (C : ctx),
+    (forall l p, resolve_proof C l = Some p -> d_link p = l) ->
+  forall n ds inv a,
+    fst (access (store_of B num keys valid alg_of) C n ds inv) = AOk a ->
+    P_sg (store_of B num keys valid alg_of) C (sig_ok_bytes B num keys valid alg_of) n ds [inv] a.
+Proof. exact access_sound_bytes. Qed.
+Print Assumptions C01_sound_bytes.
+
+(* the specification with the byte-level clause implies nothing less than the abstract one states:
+   both are instances of one definition, P_sg with the clause `fun _ => sig_ok` is P *)
+Theorem C01_spec_sg_is_spec :
+  forall U C n ds ps a, P U C n ds ps a -> P_sg U C (fun _ t v => sig_ok t v) n ds ps a.
+Proof. exact P_sg_of_P. Qed.
+Print Assumptions C01_spec_sg_is_spec.
